@@ -46,6 +46,7 @@ type Leaf struct {
 	Path []*TField
 	Sort string
 	Set  bool // the ".set" presence leaf of a nested message
+	Opaque bool // content not modelled (one unconstrained code)
 }
 
 type Comp struct {
@@ -124,7 +125,7 @@ func structFields(st *types.Struct, depth int) []*TField {
 			continue
 		}
 		tf := &TField{Proto: pn, Go: f.Name(), Idx: i, Type: f.Type(), Kind: classifyField(f.Type())}
-		if tf.Kind == "msg" && depth < 2 {
+		if tf.Kind == "msg" && depth < 3 {
 			el := f.Type().Underlying().(*types.Pointer).Elem()
 			tf.SubT = el
 			tf.Sub = structFields(el.Underlying().(*types.Struct), depth+1)
@@ -217,34 +218,13 @@ func DeriveTables(pkg *types.Package) []*Table {
 			}
 			return false
 		}
+		var top []*TField
 		for _, f := range t.Fields {
-			if isPK(f) {
-				continue
-			}
-			switch f.Kind {
-			case "int", "string", "bytes":
-				t.Leaves = append(t.Leaves, &Leaf{Comp: t.Name + "." + f.Go, Path: []*TField{f}, Sort: "Int"})
-			case "bool":
-				t.Leaves = append(t.Leaves, &Leaf{Comp: t.Name + "." + f.Go, Path: []*TField{f}, Sort: "Bool"})
-			case "msg":
-				t.Leaves = append(t.Leaves, &Leaf{Comp: t.Name + "." + f.Go + ".set", Path: []*TField{f}, Sort: "Bool", Set: true})
-				for _, sf := range f.Sub {
-					so := ""
-					switch sf.Kind {
-					case "int", "string", "bytes":
-						so = "Int"
-					case "bool":
-						so = "Bool"
-					}
-					if so != "" {
-						t.Leaves = append(t.Leaves, &Leaf{Comp: t.Name + "." + f.Go + "." + sf.Go, Path: []*TField{f, sf}, Sort: so})
-					}
-				}
-			default:
-				// oneof / repeated fields: kept as one opaque Int code per row
-				t.Leaves = append(t.Leaves, &Leaf{Comp: t.Name + "." + f.Go, Path: []*TField{f}, Sort: "Int"})
+			if !isPK(f) {
+				top = append(top, f)
 			}
 		}
+		t.Leaves = leavesOf(t.Name, top, nil)
 		out = append(out, t)
 	}
 	return out
@@ -271,6 +251,29 @@ func (t *Table) Comps() []*Comp {
 	}
 	if t.AutoInc {
 		out = append(out, &Comp{Name: t.Name + ".seq", KeySort: nil, ValSort: "Int", Table: t.Name})
+	}
+	return out
+}
+
+func isScalarKind(k string) bool { return k == "int" || k == "string" || k == "bytes" || k == "bool" }
+
+// leavesOf flattens (nested) message fields into array components.
+func leavesOf(prefix string, fields []*TField, path []*TField) []*Leaf {
+	var out []*Leaf
+	for _, f := range fields {
+		p := append(append([]*TField(nil), path...), f)
+		switch {
+		case f.Kind == "bool":
+			out = append(out, &Leaf{Comp: prefix + "." + f.Go, Path: p, Sort: "Bool"})
+		case isScalarKind(f.Kind):
+			out = append(out, &Leaf{Comp: prefix + "." + f.Go, Path: p, Sort: "Int"})
+		case f.Kind == "msg" && f.Sub != nil:
+			out = append(out, &Leaf{Comp: prefix + "." + f.Go + ".set", Path: p, Sort: "Bool", Set: true})
+			out = append(out, leavesOf(prefix+"."+f.Go, f.Sub, p)...)
+		default:
+			// oneof / repeated / deeper nesting: one opaque Int code per row
+			out = append(out, &Leaf{Comp: prefix + "." + f.Go, Path: p, Sort: "Int", Opaque: true})
+		}
 	}
 	return out
 }
